@@ -78,7 +78,7 @@ def shard_fn(shard, nshards, seed, tier, exe, nhist):
                 plan.append(("setz", nb.split(b"\0")[0]))
             elif r < 0.70:
                 # the node's own bytes handed back to it with a shorter (or the same) length: truncation in place
-                cmds.append("SSELF 0 %s" % rng.choice(["0", "1", "half", "len-1", "len"]))
+                cmds.append("SSELF 0 %s" % rng.choice(["0", "1", "half", "len-1", "len", "tail", "tail", "mid"]))   # tail / mid: a later part of the own bytes that does not overlap the destination
                 plan.append(("self",))
             elif r < 0.76:
                 bad = rng.choice([-1, -2, -2147483648, INT_MAX, INT_MAX - 1])
@@ -142,9 +142,15 @@ def shard_fn(shard, nshards, seed, tier, exe, nhist):
                 pi += 1
                 w = c.split()[2]
                 L = len(model)
-                n = {"0": 0, "1": min(1, L), "half": L // 2, "len-1": max(0, L - 1), "len": L}[w]
-                model = model[:n]
-                out.append("SSELF 0 %d" % n)
+                if w in ("tail", "mid"):
+                    n = L // 2 if w == "tail" else L // 3
+                    off = L - n if w == "tail" else n      # source [off, off+n) starts at or behind the end of the destination [0, n)
+                    model = model[off:off + n]
+                    out.append("SSELF 0 %d %d" % (n, off))
+                else:
+                    n = {"0": 0, "1": min(1, L), "half": L // 2, "len-1": max(0, L - 1), "len": L}[w]
+                    model = model[:n]
+                    out.append("SSELF 0 %d" % n)
             elif c.startswith("SSTR 0"):
                 pi += 1
                 out.append(c)
@@ -256,9 +262,10 @@ def shard_fn(shard, nshards, seed, tier, exe, nhist):
                     model = nb
             elif f[0] == "SSELF":
                 n = int(f[2])
+                off = int(f[3]) if len(f) > 3 else 0
                 if int(ln.split()[1]) != 1:
-                    key, what = "set-failed", "set_string_len(own bytes, %d) returned %s" % (n, ln.split()[1])
-                model = model[:n]
+                    key, what = "set-failed", "set_string_len(own bytes + %d, %d) returned %s" % (off, n, ln.split()[1])
+                model = model[off:off + n]
                 sh.count("set.own_bytes_truncated_in_place")
             elif f[0] == "SSTRZ":
                 nb = bytes.fromhex(f[2][1:]).split(b"\0")[0]
